@@ -18,6 +18,8 @@
 void __verif_native_assert_fail(const char*);
 void __verif_native_assume_fail(void);
 #endif
+/* reachability canary: must be refuted, otherwise the harness is vacuous (runner reports infra) */
+#define CANARY() __CPROVER_assert(0, "vacuity canary (must fail)")
 static inline long __verif_abs_long(long x) { return x < 0 ? -x : x; }
 static inline int __verif_abs_int(int x) { return x < 0 ? -x : x; }
 static inline double __verif_abs_double(double x) { return x < 0 ? -x : x; }
